@@ -25,28 +25,29 @@ class SeismicZfpBackendArray(BackendArray):
 
     def _raw_indexing_method(self, key: tuple) -> np.typing.ArrayLike:
 
-        min_il = key[0].start if isinstance(key[0], slice) else key[0]
-        min_xl = key[1].start if isinstance(key[1], slice) else key[1]
-        min_z = key[2].start if isinstance(key[2], slice) else key[2]
+        # Bounds may be omitted or counted from the end: resolve them against the axis lengths as NumPy does
+        shape = (self.sgz_reader.n_ilines, self.sgz_reader.n_xlines, self.sgz_reader.n_samples)
+        bounds, post = [], []
+        for k, n in zip(key, shape):
+            if isinstance(k, slice):
+                start, stop, step = k.indices(n)
+                if step > 0:
+                    lo, hi = start, max(start, stop)
+                else:
+                    lo, hi = stop + 1, max(stop + 1, start + 1)
+                bounds.append((lo, hi))
+                post.append(slice(None, None, step))
+            else:
+                k = k + n if k < 0 else k
+                bounds.append((k, k + 1))
+                post.append(0)
 
-        min_il = 0 if min_il is None else min_il
-        min_xl = 0 if min_xl is None else min_xl
-        min_z = 0 if min_z is None else min_z
-
-        max_il = key[0].stop if isinstance(key[0], slice) else key[0] + 1
-        max_xl = key[1].stop if isinstance(key[1], slice) else key[1] + 1
-        max_z = key[2].stop if isinstance(key[2], slice) else key[2] + 1
-
-        max_il = self.sgz_reader.n_ilines if max_il is None else max_il
-        max_xl = self.sgz_reader.n_xlines if max_xl is None else max_xl
-        max_z = self.sgz_reader.n_samples if max_z is None else max_z
-
-        subvolume = self.sgz_reader.read_subvolume(min_il=min_il, max_il=max_il,
-                                                   min_xl=min_xl, max_xl=max_xl,
-                                                   min_z=min_z,   max_z=max_z)
+        subvolume = self.sgz_reader.read_subvolume(min_il=bounds[0][0], max_il=bounds[0][1],
+                                                   min_xl=bounds[1][0], max_xl=bounds[1][1],
+                                                   min_z=bounds[2][0],  max_z=bounds[2][1])
 
         # Apply slice steps, and drop the axes which were indexed with an integer
-        return subvolume[tuple(slice(None, None, k.step) if isinstance(k, slice) else 0 for k in key)]
+        return subvolume[tuple(post)]
 
 
 class SeismicZfpBackendEntrypoint(BackendEntrypoint):
